@@ -1,6 +1,6 @@
 """Property -> rules."""
 from .prog import Program
-from . import rules_cg, lalr, rules_dispatch, rules_wrap, rules_mem, rules_state, rules_dstr, rules_recurse, rules_misc
+from . import rules_cg, lalr, rules_dispatch, rules_wrap, rules_mem, rules_state, rules_dstr, rules_recurse, rules_misc, rules_critic, rules_esc
 
 _progs = {}
 
@@ -81,7 +81,19 @@ def c15(chk, tier):
     rules_mem.type_field_invariant(P(), chk)
 
 
+def c12(chk, tier):
+    chk.explanation = "Static: R-DUAL mirror-image check of accept/reject tables (EDPE), iteration direction, writer agreement."
+    rules_critic.r_dual(P(), chk)
+
+
+def c14(chk, tier):
+    chk.explanation = "Static: R-ESCPAIR escaper (EDPE over all 256 byte values) vs. unescaper table inversion."
+    rules_esc.r_escpair(P(), chk)
+
+
 PROPS = {
+    "C14": ("other", c14),
+    "C12": ("other", c12),
     "C15": ("other", c15),
     "C18": ("other", c18),
     "C07": ("other", c07),
